@@ -8,7 +8,9 @@ cd /repo || exit 2
 if ! git diff --quiet; then echo "drill: /repo has uncommitted changes"; exit 2; fi
 if ! git apply --check "$PATCH" 2>/dev/null; then echo "drill: patch does not apply: $PATCH"; exit 2; fi
 git apply "$PATCH"
-trap 'git -C /repo checkout -- . ; git -C /repo clean -fdq -- . ":!target" 2>/dev/null' EXIT
+# evidence written while a seeded change is applied is not evidence about /repo: keep the real files aside
+EVBAK=$(mktemp -d /tmp/drill-evidence.XXXXXX); cp -a /verif/evidence/. "$EVBAK"/ 2>/dev/null
+trap 'git -C /repo checkout -- . ; git -C /repo clean -fdq -- . ":!target" 2>/dev/null; cp -a "$EVBAK"/. /verif/evidence/ 2>/dev/null; rm -rf "$EVBAK"' EXIT
 for id in "$@"; do
   out=$(cd /verif && VERIF_DIR=/verif ./check "$id" "$TIER" 2>&1)
   rc=$?
